@@ -107,42 +107,45 @@ type sim struct {
 	rec   reconciler.Reconciler[*RObj]
 	t0    time.Time
 
-	mu       sync.Mutex
-	target   map[uint64]uint64 // simulated target: id -> payload
-	attempts []Attempt
-	writes   []userWrite
-	touches  []userWrite       // status-only writes by the second reconciler
-	model    map[uint64]uint64 // id -> payload of the latest user write (absent = deleted)
-	modelRev map[uint64]uint64 // id -> revision of the latest user write
-	r2done   map[uint64]uint64 // id -> payload for which the second reconciler set Done
-	extra    []*extraRec       // further real reconcilers
-	logMu    sync.Mutex
-	gateMu   sync.Mutex
-	gate     chan struct{}   // non-nil while a user transaction holds the table lock across virtual time
-	inflight map[uint64]bool // goroutines between wtxn.beforeLock and wtxn.afterLock (by goroutine id: a goroutine that passed
+	mu          sync.Mutex
+	target      map[uint64]uint64 // simulated target: id -> payload
+	attempts    []Attempt
+	writes      []userWrite
+	touches     []userWrite       // status-only writes by the second reconciler
+	model       map[uint64]uint64 // id -> payload of the latest user write (absent = deleted)
+	modelRev    map[uint64]uint64 // id -> revision of the latest user write
+	r2done      map[uint64]uint64 // id -> payload for which the second reconciler set Done
+	extra       []*extraRec       // further real reconcilers
+	waiters     sync.WaitGroup
+	spinAtStore atomic.Bool // the next commit of the main goroutine triggers a reconciler round between its root store and its notifications
+	logMu       sync.Mutex
+	gateMu      sync.Mutex
+	gate        chan struct{}   // non-nil while a user transaction holds the table lock across virtual time
+	inflight    map[uint64]bool // goroutines between wtxn.beforeLock and wtxn.afterLock (by goroutine id: a goroutine that passed
 	// beforeLock before the hook was installed must not be counted down)
-	mainGID   uint64
-	holds     int
-	bound     time.Duration
-	streakLen int
-	everSeen  map[uint64]bool // ids the user has ever written
-	unset     map[uint64]bool // ids whose current version was written with the zero status for the first reconciler
-	roundEnds []int64         // event sequence numbers of round ends (metrics callback, under mu)
-	wmZero    int
-	nextPay   uint64
-	seq       int64 // event sequence (under mu)
-	failProb  int   // percent
-	injectPct int
-	initDone  bool
-	initAt    time.Duration
-	prunes    int
-	log       []string
-	fp        *vkit.Hash64
-	failed    atomic.Bool
-	inOp      bool
-	waits     int
-	wmChecks  int
-	convCheck int
+	mainGID      uint64
+	holds        int
+	bound        time.Duration
+	streakLen    int
+	windowRounds int
+	everSeen     map[uint64]bool // ids the user has ever written
+	unset        map[uint64]bool // ids whose current version was written with the zero status for the first reconciler
+	roundEnds    []int64         // event sequence numbers of round ends (metrics callback, under mu)
+	wmZero       int
+	nextPay      uint64
+	seq          int64 // event sequence (under mu)
+	failProb     int   // percent
+	injectPct    int
+	initDone     bool
+	initAt       time.Duration
+	prunes       int
+	log          []string
+	fp           *vkit.Hash64
+	failed       atomic.Bool
+	inOp         bool
+	waits        int
+	wmChecks     int
+	convCheck    int
 }
 
 // nextSeq must be called with mu held.
@@ -250,6 +253,10 @@ func (s *sim) userWrite(where string, rng *rand.Rand) {
 		delete(s.r2done, id)
 		s.writes = append(s.writes, userWrite{s.nextSeq(), s.now(), id, o.Payload, rev, where})
 		s.mu.Unlock()
+		if s.cfg.HoldLock && strings.HasPrefix(where, "main") && rng.IntN(4) == 0 {
+			s.startWaiter(rev)
+			s.spinAtStore.Store(true)
+		}
 		w.Commit()
 		s.logf("user %s: upsert id=%d payload=%d rev=%d", where, id, o.Payload, rev)
 	case kind < 8:
@@ -334,6 +341,16 @@ func (s *sim) hook(point, handle string) {
 			}
 			s.gateMu.Unlock()
 			<-g
+		}
+	case "commit.afterRootStore":
+		// the new root is published, the watch channels are not closed yet: a round that starts now (here: an external prune
+		// trigger) sees the commit in its snapshot but is told there are no changes
+		if goid() == s.mainGID && s.spinAtStore.CompareAndSwap(true, false) {
+			s.rec.Prune()
+			for k := 0; k < 4000; k++ {
+				runtime.Gosched()
+			}
+			s.windowRounds++
 		}
 	case "wtxn.afterLock":
 		id := goid()
@@ -839,6 +856,52 @@ func (s *sim) convergenceCheck(what string) {
 	}
 }
 
+// startWaiter: WaitUntilReconciled(rev) in a goroutine of its own; when it returns without error every change up to rev that is
+// still the current version of its key must have been attempted, and a zero watermark is judged against the round log.
+func (s *sim) startWaiter(rev uint64) {
+	cfg := s.cfg
+	s.waiters.Add(1)
+	go func() {
+		defer s.waiters.Done()
+		ctx, cancel := context.WithTimeout(context.Background(), 30*time.Second)
+		defer cancel()
+		got, wm, err := s.rec.WaitUntilReconciled(ctx, rev)
+		if err != nil {
+			return
+		}
+		s.checkZeroWatermark(wm)
+		// every change up to rev that is still the current version of its key must have been attempted
+		s.mu.Lock()
+		defer s.mu.Unlock()
+		// with a real second reconciler its status writes move objects to later revisions (as the simulated one's
+		// status-only writes do, which modelRev follows): an object whose revision is now above rev is a later change
+		cur := map[uint64]uint64{}
+		if cfg.Extra > 0 {
+			for o, orev := range s.table.All(s.db.ReadTxn()) {
+				cur[o.ID] = orev
+			}
+		}
+		for id, mrev := range s.modelRev {
+			if mrev > rev || cur[id] > rev || s.unset[id] {
+				continue
+			}
+			attempted := false
+			for _, a := range s.attempts {
+				if a.ID == id && a.Payload == s.model[id] {
+					attempted = true
+				}
+			}
+			if !attempted {
+				s.mu.Unlock()
+				s.violate("pacing", "wait-returned-early", "WaitUntilReconciled(%d) returned %d without error but the change of id=%d (payload %d, revision %d) was never attempted", rev, got, id, s.model[id], mrev)
+				s.mu.Lock()
+				return
+			}
+		}
+		s.r.Count("wait_until_reconciled_returns", 1)
+	}()
+}
+
 // checkZeroWatermark: a low watermark of zero says that no failed object awaits a retry. The value WaitUntilReconciled hands out
 // was published at the end of the last or (if the call returned between a round's end and its publication) the second to last
 // round; an object whose latest attempt failed before the end of the round before those two, and which nobody has touched since,
@@ -935,6 +998,12 @@ func (s *sim) pacingChecks() {
 			if p.Payload != c.Payload || p.Op != c.Op {
 				streak, prevWait = 0, 0
 				continue
+			}
+			// the refresher marks only objects that are Done: an attempt on a version marked Refreshing right after a failed
+			// attempt on the same version (which was not marked so) means a failed object was taken out of its backoff
+			if c.Kind == "Refreshing" && p.Kind != "Refreshing" {
+				s.violate("pacing", "refresh-of-failed-object", "id=%d payload=%d: attempt on a version marked Refreshing %.3fms after the failed attempt on the same version (status then: %s): the refresher re-marked an object that awaits its retry", id, c.Payload, float64(c.At-p.End)/1e6, p.Kind)
+				return
 			}
 			if touched {
 				streak, prevWait = -1, 0
@@ -1065,7 +1134,6 @@ func Run(t *testing.T, r *vkit.Run, idx int, cfg Config) {
 		}()
 		s.logf("config %+v", cfg)
 		initAtPhase := s.rng.IntN(cfg.Phases + 1)
-		var waiters sync.WaitGroup
 		if cfg.Streak > 0 {
 			// one object failing again and again: the waits between its attempts must stay inside [min, max] however long the streak
 			s.mu.Lock()
@@ -1126,46 +1194,7 @@ func Run(t *testing.T, r *vkit.Run, idx int, cfg Config) {
 			// WaitUntilReconciled for the current table revision
 			if s.rng.IntN(2) == 0 {
 				rev := s.table.Revision(s.db.ReadTxn())
-				waiters.Add(1)
-				go func() {
-					defer waiters.Done()
-					ctx, cancel := context.WithTimeout(context.Background(), 30*time.Second)
-					defer cancel()
-					got, wm, err := s.rec.WaitUntilReconciled(ctx, rev)
-					if err != nil {
-						return
-					}
-					s.checkZeroWatermark(wm)
-					// every change up to rev that is still the current version of its key must have been attempted
-					s.mu.Lock()
-					defer s.mu.Unlock()
-					// with a real second reconciler its status writes move objects to later revisions (as the simulated one's
-					// status-only writes do, which modelRev follows): an object whose revision is now above rev is a later change
-					cur := map[uint64]uint64{}
-					if cfg.Extra > 0 {
-						for o, orev := range s.table.All(s.db.ReadTxn()) {
-							cur[o.ID] = orev
-						}
-					}
-					for id, mrev := range s.modelRev {
-						if mrev > rev || cur[id] > rev || s.unset[id] {
-							continue
-						}
-						attempted := false
-						for _, a := range s.attempts {
-							if a.ID == id && a.Payload == s.model[id] {
-								attempted = true
-							}
-						}
-						if !attempted {
-							s.mu.Unlock()
-							s.violate("pacing", "wait-returned-early", "WaitUntilReconciled(%d) returned %d without error but the change of id=%d (payload %d, revision %d) was never attempted", rev, got, id, s.model[id], mrev)
-							s.mu.Lock()
-							return
-						}
-					}
-					s.r.Count("wait_until_reconciled_returns", 1)
-				}()
+				s.startWaiter(rev)
 			}
 			// let the reconciler work (retries with failures still on)
 			time.Sleep(time.Duration(50+s.rng.IntN(400)) * time.Millisecond)
@@ -1211,7 +1240,7 @@ func Run(t *testing.T, r *vkit.Run, idx int, cfg Config) {
 		if !s.failed.Load() && !cfg.Refresh {
 			s.checkWatermark("final")
 		}
-		waiters.Wait()
+		s.waiters.Wait()
 		if !s.failed.Load() {
 			s.pacingChecks()
 		}
@@ -1230,6 +1259,7 @@ func Run(t *testing.T, r *vkit.Run, idx int, cfg Config) {
 		r.Count("user_transactions_holding_the_lock", int64(s.holds))
 		r.Count("zero_watermarks_judged", int64(s.wmZero))
 		r.Max("longest_failure_streak", int64(s.streakLen))
+		r.Count("rounds_forced_into_the_commit_window", int64(s.windowRounds))
 		r.Count("operation_attempts", int64(len(s.attempts)))
 		r.Count("failed_attempts", int64(nfail))
 		r.Count("user_writes", int64(len(s.writes)))
